@@ -145,6 +145,14 @@ pub fn corpus(thorough: bool, seed: u64) -> Vec<Grammar> {
         out.push(wrap(&G::Seq(vec![G::Opt(Box::new(G::Fb(vec![lit("a"), nt(n)]))), nt(n)])));
         out.push(wrap(&G::Sub(vec![lit("p="), nt(n)])));
     }
+    // a plain definition of PATH / DIRECTORY replaces the built-in meaning
+    for (redef, other) in [("PATH", "DIRECTORY"), ("DIRECTORY", "PATH")] {
+        for body in [G::Alt(vec![litd("default", "the stock one"), lit("user")]), G::Seq(vec![lit("p"), nt("U")]), G::Sub(vec![lit("k="), nt("U")])] {
+            let mut g = wrap(&G::Alt(vec![G::Seq(vec![lit("--config"), nt(redef)]), G::Seq(vec![lit("--dir"), nt(other)]), G::Sub(vec![lit("--at="), nt(redef)])]));
+            g.stmts.push(Stmt::Def(redef.into(), None, body));
+            out.push(g);
+        }
+    }
     let mut rng = Rng::new(seed.wrapping_add(17));
     let nrand = if thorough { 3000 } else { 300 };
     for i in 0..nrand {
@@ -226,9 +234,16 @@ pub fn check_one(gr: Option<&Grammar>, text: &str, shell: &str, out: &mut Vec<Vi
     let min_c = min_d.canonical();
 
     // ---- C02: labelled language = reference
+    // (C09 below needs to know whether the labels of the automaton are the grammar's own: the
+    // recorded findings are about one item written in two `||` branches, not about items whose
+    // level differs from the branch they sit in)
+    let mut labels_are_the_grammars = true;
     if let Some(gr) = gr {
         match reference_language(gr, shell) {
             Ok((refd, _)) => {
+                if refd.serialize() != min_c.serialize() {
+                    labels_are_the_grammars = false;
+                }
                 if refd.serialize() != raw_c.serialize() {
                     let w = distinguishing_word(&refd, &raw_c);
                     let (word, in_ref) = w.unwrap_or((vec![], false));
@@ -258,7 +273,7 @@ pub fn check_one(gr: Option<&Grammar>, text: &str, shell: &str, out: &mut Vec<Vi
     }
 
     // ---- C09: no state with two readings of one word leading to different continuations
-    c09_determinism(&min_nfa, &min_read, &nfa_nolevels(&comp.min), "main", text, shell, gr.map_or(false, |g| has_respelled_word(g, shell)), out);
+    c09_determinism(&min_nfa, &min_read, &nfa_nolevels(&comp.min), "main", text, shell, gr.map_or(false, |g| has_respelled_word(g, shell)), labels_are_the_grammars, out);
 
     // ---- C09: `||` behaves exactly like `|` when matching
     if let Some(gr) = gr {
@@ -323,7 +338,7 @@ fn c03_min_only(min: &complgen::dfa::DFA, which: &str, text: &str, shell: &str, 
     }
 }
 
-fn c09_determinism(n: &Nfa, readings: &Nfa, nolevels: &Nfa, which: &str, text: &str, shell: &str, respelled: bool, out: &mut Vec<Violation>) {
+fn c09_determinism(n: &Nfa, readings: &Nfa, nolevels: &Nfa, which: &str, text: &str, shell: &str, respelled: bool, labels_are_the_grammars: bool, out: &mut Vec<Violation>) {
     // `n` (labelled items) and `readings` (items as read when matching) have identical shape
     for (s, row) in n.trans.iter().enumerate() {
         let mut by: BTreeMap<String, BTreeSet<usize>> = BTreeMap::new();
@@ -356,7 +371,8 @@ fn c09_determinism(n: &Nfa, readings: &Nfa, nolevels: &Nfa, which: &str, text: &
                 } else {
                     "same-command-different-fallback-level"
                 };
-                out.push(viol("C09.dfa.match_deterministic", format!("{which}: at one point the word read as {:?} has {} different continuations (items {:?})", r.chars().take(80).collect::<String>(), tg.len(), names[&r].iter().map(|x| x.chars().take(60).collect::<String>()).collect::<Vec<_>>()), text, shell, J::s("one continuation per reading"), J::Num(tg.len() as i64), kind));
+                let kind = if labels_are_the_grammars { kind.to_string() } else { format!("{kind}-with-labels-that-are-not-the-grammars") };
+                out.push(viol("C09.dfa.match_deterministic", format!("{which}: at one point the word read as {:?} has {} different continuations (items {:?})", r.chars().take(80).collect::<String>(), tg.len(), names[&r].iter().map(|x| x.chars().take(60).collect::<String>()).collect::<Vec<_>>()), text, shell, J::s("one continuation per reading"), J::Num(tg.len() as i64), &kind));
                 return;
             }
         }
